@@ -28,7 +28,15 @@ HDR_RE = re.compile(r'#\.{0,3}[a-z]+:')
 _LEXER = DiffXLexer()
 
 
+WATCHDOG_S = 5
+MAX_TIMEOUTS_PER_UNIT = 2
+
+
 class Timeout(Exception):
+    pass
+
+
+class UnitAborted(Exception):
     pass
 
 
@@ -174,13 +182,22 @@ def plan(tier):
 def run_unit(unit, tier):
     acc = Acc()
     signal.signal(signal.SIGALRM, _alarm)
+    timeouts = [0]
+    try:
+        _unit_body(unit, tier, acc, timeouts)
+    except UnitAborted:
+        acc.cap_hit = True
+    return acc
 
+
+def _unit_body(unit, tier, acc, timeouts):
     def one_str(text):
-        signal.setitimer(signal.ITIMER_REAL, 20)
+        signal.setitimer(signal.ITIMER_REAL, WATCHDOG_S)
         try:
             viols, toks = check_lossless(text)
         except Timeout:
             viols = [('lexer-timeout', repr(text))]
+            timeouts[0] += 1
         finally:
             signal.setitimer(signal.ITIMER_REAL, 0)
         acc.evals += 1
@@ -192,6 +209,8 @@ def run_unit(unit, tier):
         for key, msg in viols:
             acc.violation(key, msg, {'kind': 'str', 'text': text})
         acc.outcome('ok' if not viols else 'violation')
+        if timeouts[0] >= MAX_TIMEOUTS_PER_UNIT:
+            raise UnitAborted()
 
     if unit[0] == 'str-short':
         alpha = FINE if unit[1] == 'fine' else COARSE
@@ -220,11 +239,12 @@ def run_unit(unit, tier):
                 data, recs = spec.serialize(calls, 'utf-8')
                 text = data.decode('utf-8')
                 headers = ['#%s:' % r['section'] for r in recs]
-                signal.setitimer(signal.ITIMER_REAL, 20)
+                signal.setitimer(signal.ITIMER_REAL, WATCHDOG_S)
                 try:
                     viols = check_file(text, headers)
                 except Timeout:
                     viols = [('lexer-timeout', repr(text[:200]))]
+                    timeouts[0] += 1
                 finally:
                     signal.setitimer(signal.ITIMER_REAL, 0)
                 acc.evals += 1
@@ -236,18 +256,26 @@ def run_unit(unit, tier):
                     acc.violation(key, msg, {'kind': 'file',
                                              'calls': to_jsonable(calls)})
                 acc.outcome('ok' if not viols else 'violation')
+                if timeouts[0] >= MAX_TIMEOUTS_PER_UNIT:
+                    raise UnitAborted()
         acc.sample({'skeleton': sk}, 1)
-    return acc
 
 
 def replay(payload):
-    if payload.get('kind') == 'str':
-        viols, _ = check_lossless(payload['text'])
-    elif payload.get('kind') == 'file':
-        calls = from_jsonable(payload['calls'])
-        data, recs = spec.serialize(calls, 'utf-8')
-        viols = check_file(data.decode('utf-8'),
-                           ['#%s:' % r['section'] for r in recs])
-    else:
-        viols = []
+    signal.signal(signal.SIGALRM, _alarm)
+    signal.setitimer(signal.ITIMER_REAL, WATCHDOG_S)
+    try:
+        if payload.get('kind') == 'str':
+            viols, _ = check_lossless(payload['text'])
+        elif payload.get('kind') == 'file':
+            calls = from_jsonable(payload['calls'])
+            data, recs = spec.serialize(calls, 'utf-8')
+            viols = check_file(data.decode('utf-8'),
+                               ['#%s:' % r['section'] for r in recs])
+        else:
+            viols = []
+    except Timeout:
+        viols = [('lexer-timeout', 'no result within %d s' % WATCHDOG_S)]
+    finally:
+        signal.setitimer(signal.ITIMER_REAL, 0)
     return [{'key': k, 'msg': m} for k, m in viols]
